@@ -672,10 +672,11 @@ func readShelf(db stoabs.KVStore, shelf string) map[string]string {
 func repair(t *testing.T, r *ev.Run) {
 	txs := longChain(r)
 	rnd := r.Rand("repair")
-	rounds := r.Pick(3, 12)
+	rounds := r.Pick(5, 15)
 	for i := 0; i < rounds; i++ {
 		e := openEnv(tmp(t, "repair"), false)
-		n := []int{1100, 700, 300}[i%3]
+		// sizes 513 and 1025: the highest clock is exactly a page boundary, so the last page holds a single transaction
+		n := []int{513, 1100, 1025, 700, 300}[i%5]
 		for k := 0; k < n; k++ {
 			if err := e.add(txs[k], nil); err != nil {
 				r.Fatalf("setup: %v", err)
@@ -684,6 +685,9 @@ func repair(t *testing.T, r *ev.Run) {
 		before := readShelf(e.db, "xorBucket")
 		pages := (n + 511) / 512
 		page := rnd.Intn(pages)
+		if n%512 == 1 {
+			page = pages - 1 // corrupt that last, single-transaction page
+		}
 		var pk [4]byte
 		leafKey := page*512 + 256 // leaves are keyed by the clock that splits their page (little endian)
 		pk[0], pk[1], pk[2], pk[3] = byte(leafKey), byte(leafKey>>8), byte(leafKey>>16), byte(leafKey>>24)
